@@ -88,6 +88,11 @@ Theorem C04_closed_is_final : forall cfg stream_headers ws_token ws_ext ws_sends
   Forall (fun q => p_closed q = true) (proto_states cfg stream_headers ws_token ws_ext ws_sends p inputs).
 Proof. exact closed_is_final. Qed.
 Print Assumptions C04_closed_is_final.
+(* handle(Closed) - the server telling the protocol that the connection is gone - releases the reader whenever it returns *)
+Theorem C04_closed_event_releases_reader : forall p,
+  let '(p', o, r) := handle_closed p in r = Ok tt -> p_can_read p' = true.
+Proof. exact handle_closed_releases. Qed.
+Print Assumptions C04_closed_event_releases_reader.
 Theorem C04_closed_connection_stays_quiet : forall cfg stream_headers ws_token ws_ext ws_sends evss p,
   p_closed p = true ->
   proto_run cfg stream_headers ws_token ws_ext ws_sends p (map IData evss) = map (fun _ => ([], Ok tt)) evss.
